@@ -90,6 +90,24 @@ def c03 (op : String) (args : List String) (impl : String) : Verdict :=
         | _ => []
       mk impl model ([noCrash impl] ++ clauses)
     | _, _, _, _, _, _, _, _, _ => bad "exchange-args"
+  | "newstream", [n, _failAt] =>
+    -- each packet's 17 octets must be a window of the entropy stream; windows strictly increasing and
+    -- non-overlapping (fresh, never reused); a failed Read may surface as a panic (documented)
+    match n.toNat? with
+    | some n =>
+      let toks := ((impl.splitOn " ").headD "").splitOn ","
+      let offs := toks.filterMap (·.toNat?)
+      let allFound := toks.all fun t => t == "P" || t.toNat?.isSome
+      let rec fresh : List Nat → Bool
+        | a :: b :: rest => decide (a + 17 ≤ b) && fresh (b :: rest)
+        | _ => true
+      let ok := decide (toks.length = n) && allFound && fresh offs
+      let model := if ok then impl else "every packet's 17 octets are a fresh, non-overlapping window of crypto/rand.Reader's stream"
+      mk impl model [noCrash impl,
+        ("identifier_and_authenticator_come_from_the_entropy_source", allFound),
+        ("entropy_is_never_reused", fresh offs),
+        ("one_result_per_call", decide (toks.length = n))]
+    | none => bad "newstream-n"
   | "new", [code, secret] =>
     let model := s!"ok {code} {secret} - fresh"
     mk impl model [noCrash impl, ("new_packet_fields_and_fresh_randomness", impl == model)]
